@@ -25,6 +25,10 @@ BASES = [
     "http://u:p@[::1]:81/x/y.z", "foo://h/a/b", "", "a", "a/", "a/b", "a/b/", "/", "/a", "/a/b", "/a/b/", "a//b", "./a", "../a", "a/../b", "/a/./b", "a.b/c.d",
     "é/ü.ö", "a%2Fb/c%20d.e%25", "mailto:x/y", "foo:a/b.c", "?q", "#f", "a?q#f", "/a.b?q#f",
 ]
+# scheme kind x path shape: a scheme WITHOUT an authority (rooted and rootless paths), a netloc scheme with an EMPTY authority,
+# scheme-less network paths - "has a scheme" is not "has an authority"
+BASES += [pre + pth for pre in ("foo:", "file://", "mailto:", "x-app:", "//h", "git://u@h:1", "file:") for pth in ("", "/", "/a", "/a/", "/a/b", "/a.b", "/a//b", "a", "a/b", "a/")
+          if not (pre.startswith(("//", "git:")) and pth and not pth.startswith("/"))]
 NAMES = ["x", "x.y", ".x", "x.", "..x", "x..", "a b", "a%20b", "a%2Fb", "%", "%25", "é", "ü.ö", "a+b", "a:b", "a@b", "a;b=c", "a,b", "a?b", "a#b", "~", "a\tb",
          "😀", "x.tar.gz", "...", "a%zz", "%2E", "%2e%2e", " ", "\x00"]
 SUFFIXES = [".x", ".tar", ".a b", ".é", ".%20", ".a.b", ".tar.gz", ".a.", ".", "", ".x/y", "x", ".😀", ".%", "..", ".a%2Fb", ".#?"]
